@@ -1568,6 +1568,15 @@ func (t *fnTr) assigned(list []ast.Stmt) []*lvar {
 					add(t.lvarOf(x.Lhs[0]))
 				}
 				if len(x.Rhs) == 1 {
+					if c, ok := x.Rhs[0].(*ast.CallExpr); ok && len(c.Args) == 1 {
+						if se, ok := c.Fun.(*ast.SelectorExpr); ok && se.Sel.Name == "Decode" {
+							if u, ok := c.Args[0].(*ast.UnaryExpr); ok && u.Op == token.AND {
+								add(t.lvarOf(u.X))
+							}
+						}
+					}
+				}
+				if len(x.Rhs) == 1 {
 					if c, ok := x.Rhs[0].(*ast.CallExpr); ok {
 						if se, ok := c.Fun.(*ast.SelectorExpr); ok && se.Sel.Name == "Read" && len(c.Args) == 1 {
 							if rl := t.lvarOf(se.X); rl != nil && rl.kind == "reader" {
@@ -1621,6 +1630,13 @@ func (t *fnTr) assigned(list []ast.Stmt) []*lvar {
 				}
 			case *ast.ExprStmt:
 				if c, ok := x.X.(*ast.CallExpr); ok {
+					if se, isSel := c.Fun.(*ast.SelectorExpr); isSel && se.Sel.Name == "UseNumber" {
+						if id, isId := se.X.(*ast.Ident); isId {
+							if dl, okL := t.locals[t.p.info.Uses[id]]; okL && dl.kind == "jdecoder" {
+								add(dl.fields["usenum"])
+							}
+						}
+					}
 					if pk, nm, isPkg := t.pkgCall(c); isPkg && pk == "sort" && nm == "Sort" && len(c.Args) == 1 {
 						if conv, isConv := c.Args[0].(*ast.CallExpr); isConv && len(conv.Args) == 1 {
 							add(t.lvarOf(conv.Args[0]))
@@ -2292,6 +2308,13 @@ func (t *fnTr) stmts(list []ast.Stmt, end func() string) string {
 			}
 		}
 		if ok {
+			if se, isSel := c.Fun.(*ast.SelectorExpr); isSel && se.Sel.Name == "UseNumber" && len(c.Args) == 0 {
+				if id, isId := se.X.(*ast.Ident); isId {
+					if dl, okL := t.locals[t.p.info.Uses[id]]; okL && dl.kind == "jdecoder" {
+						return "let " + dl.fields["usenum"].name + " := true in\n  " + next()
+					}
+				}
+			}
 			if pk, nm, isPkg := t.pkgCall(c); isPkg && pk == "sort" && nm == "Sort" && len(c.Args) == 1 {
 				// sort.Sort(T(xs)) on a local slice: xs is replaced by its sorted permutation, computed by the Section
 				// variable ext_sort_T (the theorems instantiate it with a sorting function and say what they need of it)
@@ -2684,6 +2707,75 @@ func (t *fnTr) assign(x *ast.AssignStmt, next func() string) string {
 					lv.fields["Name"], lv.fields["Attr"] = fn, fa
 					lv.forder = []string{"Name", "Attr"}
 					return "(match " + tl.name + " with Some (TStart " + fn.name + " " + fa.name + ") =>\n  " + next() + "\n  | _ => Crash end)"
+				}
+			}
+		}
+		// dec := json.NewDecoder(bytes.NewReader(b)): the decoder is the bytes it reads and its UseNumber flag; its single
+		// Decode is the environment function ext_json_Decode
+		if define {
+			if c, ok := x.Rhs[0].(*ast.CallExpr); ok && len(c.Args) == 1 {
+				if pk, nm, isPkg := t.pkgCall(c); isPkg && pk == "encoding/json" && nm == "NewDecoder" {
+					if rc, ok := c.Args[0].(*ast.CallExpr); ok && len(rc.Args) == 1 {
+						if pk2, nm2, isPkg2 := t.pkgCall(rc); isPkg2 && pk2 == "bytes" && nm2 == "NewReader" && t.kindOfExpr(rc.Args[0]) == "str" {
+							nDecode := 0
+							ast.Inspect(t.fn.Body, func(n ast.Node) bool {
+								if ce, ok := n.(*ast.CallExpr); ok {
+									if se, ok := ce.Fun.(*ast.SelectorExpr); ok && se.Sel.Name == "Decode" {
+										if id, ok := se.X.(*ast.Ident); ok && t.p.info.Uses[id] == obj {
+											nDecode++
+										}
+									}
+								}
+								return true
+							})
+							if nDecode != 1 {
+								t.unsupported(x, "a json.Decoder that is not decoded from exactly once")
+							}
+							mark := len(t.guards)
+							src := t.expr(rc.Args[0])
+							lv := &lvar{name: "l_" + l.Name, kind: "jdecoder", fields: map[string]*lvar{}}
+							t.locals[obj] = lv
+							fs := t.newLocal(nil, l.Name+"_src", "str")
+							fu := t.newLocal(nil, l.Name+"_usenum", "bool")
+							lv.fields["src"], lv.fields["usenum"] = fs, fu
+							lv.forder = []string{"src", "usenum"}
+							return t.wrap(mark, "let "+fs.name+" : str := "+src+" in let "+fu.name+" : bool := false in\n  "+next())
+						}
+					}
+				}
+			}
+		}
+		// err := dec.Decode(&v) on such a decoder
+		if c, ok := x.Rhs[0].(*ast.CallExpr); ok && len(c.Args) == 1 {
+			if se, ok := c.Fun.(*ast.SelectorExpr); ok && se.Sel.Name == "Decode" {
+				if id, ok := se.X.(*ast.Ident); ok {
+					if dl, ok := t.locals[t.p.info.Uses[id]]; ok && dl.kind == "jdecoder" {
+						u, isAddr := c.Args[0].(*ast.UnaryExpr)
+						var vl *lvar
+						if isAddr && u.Op == token.AND {
+							vl = t.lvarOf(u.X)
+						}
+						if vl == nil || vl.kind != "val" {
+							t.unsupported(x, "Decode into something other than &v with v an interface{} local")
+						}
+						var en string
+						if define {
+							en = t.newLocal(obj, l.Name, "errv").name
+						} else if el, ok := t.locals[obj]; ok && el.kind == "errv" {
+							en = el.name
+						} else {
+							t.unsupported(x, "Decode result assigned to something other than an error variable")
+						}
+						name := "ext_json_Decode"
+						found := false
+						for _, e := range *t.externs {
+							found = found || e.name == name
+						}
+						if !found {
+							*t.externs = append(*t.externs, extern{name, "str -> bool -> (res value)"})
+						}
+						return "match (" + name + " " + dl.fields["src"].name + " " + dl.fields["usenum"].name + ") with Panic => Crash | rr_ => let '(" + vl.name + ", " + en + ") := match rr_ with Ok v_ => (v_, None) | Err e_ => (" + vl.name + ", Some e_) | Panic => (" + vl.name + ", None) end in\n  " + next() + " end"
+					}
 				}
 			}
 		}
@@ -3324,8 +3416,15 @@ func (t *fnTr) typeSwitch(x *ast.TypeSwitchStmt, rest []ast.Stmt, end func() str
 	if guard == nil || guard.Type != nil {
 		t.unsupported(x, "type switch guard")
 	}
+	// switch x := v.(type): in a single-type case x is the payload of that type (bound by the pattern); in a
+	// multi-type or default case x is v itself
+	var bindObjs map[*ast.CaseClause]types.Object
 	if bindId != nil {
-		t.unsupported(x, "type switch with a bound variable")
+		bindObjs = map[*ast.CaseClause]types.Object{}
+		for _, c := range x.Body.List {
+			cc := c.(*ast.CaseClause)
+			bindObjs[cc] = t.p.info.Implicits[cc]
+		}
 	}
 	var bodies [][]ast.Stmt
 	hasDef := false
@@ -3352,6 +3451,16 @@ func (t *fnTr) typeSwitch(x *ast.TypeSwitchStmt, rest []ast.Stmt, end func() str
 		for _, c := range x.Body.List {
 			if cc := c.(*ast.CaseClause); cc.List == nil {
 				def = cc.Body
+			}
+		}
+		if bindObjs != nil {
+			if gl := t.lvarOf(guard.X); gl != nil {
+				for _, c := range x.Body.List {
+					cc := c.(*ast.CaseClause)
+					if len(cc.List) != 1 && bindObjs[cc] != nil {
+						t.locals[bindObjs[cc]] = gl // x is v itself in a multi-type / default case
+					}
+				}
 			}
 		}
 		catchAll := false
@@ -3384,6 +3493,20 @@ func (t *fnTr) typeSwitch(x *ast.TypeSwitchStmt, rest []ast.Stmt, end func() str
 						pat = "Some (TDirective _)"
 					}
 				default:
+					if bindObjs != nil && len(cc.List) == 1 && !t.p.info.Types[te].IsNil() && !outsideUniverse(t.p.info.Types[te].Type) {
+						// the bound variable of this case: the payload
+						bn := "bx_"
+						if obj := bindObjs[cc]; obj != nil {
+							bp, bk := t.assertPat(t.p.info.Types[te].Type, "")
+							if bp == "" {
+								t.unsupported(te, "type switch case of this type")
+							}
+							lv := t.newLocal(obj, bindId.Name, bk)
+							bn = lv.name
+							pat = bp + bn
+							break
+						}
+					}
 					if it, ok := t.p.info.Types[te].Type.Underlying().(*types.Interface); ok && it.NumMethods() == 0 && len(cc.List) == 1 {
 						// case interface{}: any non-nil value (the nil interface goes to the default clause)
 						sb.WriteString("\n  | VNil => " + t.tryBody(func() string { return tr(def) }) + "\n  | _ => " + t.tryBody(func() string { return tr(cc.Body) }))
@@ -3834,7 +3957,7 @@ func constTable(p *pkgInfo, vs *ast.ValueSpec, i int) (string, bool) {
 
 // the functions translated into Pure_gen.v ("Recv.Method" for methods)
 var pureFuncs = []string{"cast", "escapeChars", "parsePath", "getSubKeyMap", "hasSubKeys", "Map.PathForKeyShortest", "valuesForKeyPath", "hasKey", "hasKeyPath", "getLeafNodes",
-	"Map.ValuesForKey", "Map.oldValuesForPath", "Map.ValuesForPath", "Map.LeafNodes", "getJson", "NewMapJsonReader", "NewMapJsonReaderRaw", "Map.Exists", "Map.ValueForPath", "Map.ValueForKey", "Map.LeafPaths", "Map.LeafValues", "valuesForArray", "Map.PathsForKey", "byteReader.ReadByte", "teeReader.ReadByte", "Maps.JsonString", "Maps.JsonStringIndent", "Maps.XmlString", "Maps.XmlStringIndent", "BeautifyXml", "Map.Copy", "Map.Json", "Map.Root", "NewMapXml", "NewMapXmlSeq", "lastKey", "xmlToMapParser", "xmlSeqToMapParser", "Map.JsonWriter", "Map.JsonWriterRaw", "Map.JsonIndentWriter", "Map.JsonIndentWriterRaw", "Map.XmlWriter", "Map.XmlIndentWriter", "MapSeq.XmlWriter", "MapSeq.XmlIndentWriter", "mapToXmlSeqIndent", "pretty.Indent", "pretty.Outdent", "elemListSeq.Less", "marshalMapToXmlIndent", "attrList.Less", "elemList.Less"}
+	"Map.ValuesForKey", "Map.oldValuesForPath", "Map.ValuesForPath", "Map.LeafNodes", "getJson", "NewMapJsonReader", "NewMapJsonReaderRaw", "Map.Exists", "Map.ValueForPath", "Map.ValueForKey", "Map.LeafPaths", "Map.LeafValues", "valuesForArray", "Map.PathsForKey", "byteReader.ReadByte", "teeReader.ReadByte", "Maps.JsonString", "Maps.JsonStringIndent", "Maps.XmlString", "Maps.XmlStringIndent", "BeautifyXml", "Map.Copy", "Map.Json", "Map.Root", "NewMapXml", "NewMapXmlSeq", "lastKey", "xmlToMapParser", "xmlSeqToMapParser", "Map.JsonWriter", "Map.JsonWriterRaw", "Map.JsonIndentWriter", "Map.JsonIndentWriterRaw", "Map.XmlWriter", "Map.XmlIndentWriter", "MapSeq.XmlWriter", "MapSeq.XmlIndentWriter", "mapToXmlSeqIndent", "pretty.Indent", "pretty.Outdent", "elemListSeq.Less", "marshalMapToXmlIndent", "attrList.Less", "elemList.Less", "NewMapJson"}
 
 // joinMode: functions translated in join mode (see branching): the statements after an if / switch are translated
 // once instead of into every branch.  The continuation-passing translation of the other functions is kept as it is
